@@ -1,5 +1,5 @@
 /-
-  C11 — `checked_gamma_lr` / `checked_gamma_ur`, CONTINUED-FRACTION branch (src/function/gamma.rs:326–367,
+  C11 — `checked_gamma_lr` / `checked_gamma_ur`, CONTINUED-FRACTION branch (src/function/gamma.rs:323–364,
   211–250) in exact real arithmetic: the loop's quotients `p/q` are the convergents `A_k/B_k` of the three-term
   recurrence of `Lemmas/GammaSeriesCF.lean`; the rescaling by `big_inv` changes `(p3,p2,q3,q2)` by a common
   non-zero factor (`cfScale`, a power of `big_inv`) and therefore neither `p/q` nor the test `q ≠ 0`.
@@ -195,14 +195,14 @@ theorem gamma_lr_cf_value (a x : ℝ) (ha : (0.0000000000000011102230246251565 :
     F.gamma.checked_gamma_lr a x =
       .ok (1 - Real.exp (a * Real.log x - x - F.gamma.ln_gamma a)
         * (cfA a x (cfStopIdx a x 1e-15 + 2) / cfB a x (cfStopIdx a x 1e-15 + 2))) := by
-  have hx : (0.0000000000000011102230246251565 : ℝ) < x := lt_trans (by norm_num) hx1
-  obtain ⟨g1, g2, g3, g4, g5⟩ := gamma_lr_guards_real ha hx
+  have hx : (0 : ℝ) < x := lt_trans one_pos hx1
+  obtain ⟨g1, g2, g3, g4⟩ := gamma_lr_guards_real ha hx
   have e15 : (0.000000000000001 : ℝ) = 1e-15 := by norm_num
   have hloop := gamma_lr_loop3_start (4503599627370496.0 : ℝ) (2.22044604925031308085e-16 : ℝ) 1e-15 a x
     (by norm_num) hex loopFuel hfuel
   have hs : ¬ (x ≤ (1.0 : ℝ) ∨ x ≤ a) := by
     rw [show (1.0 : ℝ) = 1 by norm_num]; push Not; exact ⟨hx1, hxa⟩
-  have h := BranchPins.checked_gamma_lr_cf a x _ _ _ _ _ _ _ _ g1 g2 g3 g4 g5
+  have h := BranchPins.checked_gamma_lr_cf a x _ _ _ _ _ _ _ _ g1 g2 g3 g4
     (by simpa using not_lt.mpr hu) hs (by rw [e15]; exact hloop)
   rw [h]
   simp only [rfun_exp, rfun_ln]
